@@ -99,8 +99,12 @@ impl Recv {
 
         self.stopped = true;
         self.assembler.clear();
-        // Issue flow control credit for unread data
-        let read_credits = self.end - self.assembler.bytes_read();
+        // Issue flow control credit for unread data. A reset stream was already credited up to
+        // its final size when the reset arrived.
+        let read_credits = match self.is_receiving() {
+            true => self.end - self.assembler.bytes_read(),
+            false => 0,
+        };
         // This may send a spurious STOP_SENDING if we've already received all data, but it's a bit
         // fiddly to distinguish that from the case where we've received a FIN but are missing some
         // data that the peer might still be trying to retransmit, in which case a STOP_SENDING is
